@@ -33,7 +33,88 @@ type callK func(st *State, res Val)
 
 func (fr *FnRun) call(st *State, site ssa.Instruction, c *ssa.CallCommon, depth int, k callK) {
 	fnv, args := fr.evalCallee(st, c)
+	fr.checkCallSite(st, site, c)
 	fr.callVal(st, site, c, fnv, args, depth, k)
+}
+
+// siteDesc describes a call statically: interface method, static callee, or the local variable a
+// function value is called through.
+func (fr *FnRun) siteDesc(c *ssa.CallCommon) string {
+	if c.IsInvoke() {
+		return TypeKey(c.Value.Type()) + "." + c.Method.Name()
+	}
+	if fn := c.StaticCallee(); fn != nil {
+		return ShortKey(FuncKey(fn))
+	}
+	for name, cands := range fr.locals {
+		for _, v := range cands {
+			if v == c.Value {
+				return "value:" + name
+			}
+			// a load of an address-taken local
+			if u, ok := c.Value.(*ssa.UnOp); ok && u.X == v {
+				return "value:" + name
+			}
+		}
+	}
+	return "value:" + c.Value.Name()
+}
+
+// checkCallSite emits the `site` obligations of the contract's callsite specs for a call made by
+// the function under verification itself (not by inlined callees).
+func (fr *FnRun) checkCallSite(st *State, site ssa.Instruction, c *ssa.CallCommon) {
+	if fr.ctr == nil || len(fr.ctr.Sites) == 0 || site == nil || site.Parent() != fr.fn {
+		return
+	}
+	desc := fr.siteDesc(c)
+	for _, sp := range fr.ctr.Sites {
+		if !strings.Contains(desc, sp.Pattern) {
+			continue
+		}
+		vars := map[string]Val{}
+		for k, v := range fr.env0 {
+			vars[k] = v
+		}
+		fr.bindLocals(st, vars)
+		env := &Env{st: st, old: fr.entry, vars: vars, fr: fr}
+		for i, a := range sp.Asserts {
+			d := a.Label
+			if d == "" {
+				d = fmt.Sprintf("%s.%d", sp.Pattern, i+1)
+			}
+			t, msg := fr.tryEvalBool(a.E, env)
+			if msg != "" {
+				fr.oblige(st, "site", d, tFalse, a, a.Src+"   [cannot be evaluated before the call to "+desc+": "+msg+"]")
+				continue
+			}
+			fr.oblige(st, "site", d+"@"+fr.ordOf(site), t, a, "before the call to "+desc+": "+a.Src)
+			st.assume(t)
+		}
+	}
+}
+
+// checkSitesExist: every callsite spec must match at least one call of the function.
+func (fr *FnRun) checkSitesExist(st *State) {
+	if fr.ctr == nil {
+		return
+	}
+	for _, sp := range fr.ctr.Sites {
+		found := false
+		for _, b := range fr.fn.Blocks {
+			for _, in := range b.Instrs {
+				if ci, ok := in.(ssa.CallInstruction); ok {
+					if strings.Contains(fr.siteDesc(ci.Common()), sp.Pattern) {
+						found = true
+					}
+				}
+			}
+		}
+		if found {
+			fr.oblige(st, "site-exists", sp.Pattern, tTrue, nil, "a call matching "+sp.Pattern+" exists")
+		} else {
+			fr.oblige(st, "site-exists", sp.Pattern, tFalse, nil, "the function no longer makes a call matching "+sp.Pattern+" (the contract states what must hold before it)")
+		}
+	}
 }
 
 func (fr *FnRun) callVal(st *State, site ssa.Instruction, c *ssa.CallCommon, fnv Val, args []Val, depth int, k callK) {
